@@ -123,6 +123,7 @@ func (q *UdpTaskQueue) popReadyTask() (UdpTask, bool) {
 		return task, true
 	default:
 	}
+	verifYield("utp7")
 	return q.popOverflowTask()
 }
 
